@@ -814,7 +814,10 @@ class PyvalColorizer:
 
     def _colorize_ast_generic(self, pyval: ast.AST, state: _ColorizerState) -> None:
         try:
-            source = astor.to_source(pyval, source_generator_class=_SourceGenerator).strip()
+            # Do not let astor wrap the long lines: the line breaks must be the ones of
+            # the expression, they are where the inline presentation is cut.
+            source = astor.to_source(pyval, source_generator_class=_SourceGenerator, 
+                                     pretty_source=''.join).strip()
         except Exception: #  No defined handler for node of type <type>
             state.result.append(self.UNKNOWN_REPR)
         else:
